@@ -111,11 +111,23 @@ impl Prop for C06 {
         ops.push(AppOp::Drain {
             max: (n_in + 3) as u32,
         });
+        // a transport that buffers until flushed (like the shipped WebSocket adaptor), with a
+        // flush that is not always ready
+        let buffered = imp == Imp::Tokio && rng.chance(1, 3);
+        let flushes = if imp == Imp::Tokio && !fault_free && rng.chance(1, 2) {
+            let k = rng.usize(1, 80);
+            let pm = rng.range(100, 800);
+            gen::gen_flushes(rng, k, pm)
+        } else {
+            vec![]
+        };
         StreamScenario {
             imp,
             mode,
             verify_version: false,
             explicit_gate: true,
+            flushes,
+            buffered,
             inbound,
             reads,
             writes,
@@ -158,6 +170,7 @@ impl Prop for C06 {
         vec![
             "expected bytes of write(p) = Codec::encode(p) (reference call)".into(),
             "the transport never fails and never accepts 0 bytes (the property's quantifier excludes both)".into(),
+            "in a third of the tokio runs the transport buffers what it accepts until it is flushed (as the shipped WebSocket adaptor does) and its flush may answer Pending: a write that returns Ok must have flushed; the blocking connection is only run over an unbuffered transport".into(),
         ]
     }
     fn components(&self) -> Value {
@@ -175,6 +188,8 @@ impl Prop for C06 {
             "blocking_runs",
             "tokio_runs",
             "read_cancelled",
+            "flush_pending",
+            "buffered_bytes_flushed",
         ]
     }
 }
